@@ -62,6 +62,9 @@ theorem range_forms (g : GlobalConfig) (f : AField) (mf : Field) (syn : Syntax)
         · simp only [h2, if_true, Except.ok.injEq] at h; rw [← h]; simp
         · simp [h2] at h
     · simp [h1] at h
+      cases hs : f.stop with
+      | none => rw [hs] at h; by_cases hb : f.base = BaseType.bool <;> simp [hb] at h
+      | some e => rw [hs] at h; simp at h
   have hm : manField g f = .ok mf → mf.start = f.start ∧ mf.stop = (f.stop.getD f.start) := by
     intro h
     unfold manField at h
